@@ -571,6 +571,20 @@ def family_shapes():
             "start": "A",
         },
     )
+    # S17 a production that is infeasible in some contexts: the dependent VarRange is empty when a == 0,
+    # which makes creation backtrack to another production (dependent_types_context_test shape)
+    out.append(
+        {
+            "name": "S17:backtrack",
+            "abstract": [["A", None, "ABC"]],
+            "prods": [
+                ["L", "A", None, [["v", IR01]]],
+                ["D", "A", None, [["a", IR01], ["n", ["ann", "str", ["Dep", "a", ["VarRangeOf", [[], ["q"]]]]]]]],
+                ["N", "A", None, [["x", ref("A")]]],
+            ],
+            "start": "A",
+        },
+    )
     return out
 
 
@@ -613,7 +627,7 @@ def finite_family(tier: str):
     fa = finite_alphabet()
     out = list(family_one_abstract(fa, 1 if tier == "quick" else 2, "F1"))
     out += [s for s in family_shapes() if s["name"].split(":")[0] in
-            ("S1", "S2", "S3", "S4", "S5", "S6", "S7", "S8", "S9", "S10", "S12", "S13", "S14", "S15", "S16")]
+            ("S1", "S2", "S3", "S4", "S5", "S6", "S7", "S8", "S9", "S10", "S12", "S13", "S14", "S15", "S16", "S17")]
     out += list(family_two_abstract(finite_alphabet, "F2"))
     out += list(family_nested(finite_alphabet, "F3"))
     return out
